@@ -175,6 +175,16 @@ func main() {
 			}
 		}
 	}
+	// levels wide enough to be hashed by several workers (the library splits a level of >= 512 parents)
+	for _, n := range []int{511, 513, 1000, 1024, 1025, 2048, 3000} {
+		n := n
+		if n > 2048 && r.Quick() {
+			continue
+		}
+		g := fmt.Sprintf("vortex/large/n=%d", n)
+		names = append(names, g)
+		bodies[g] = func(g string) { vortexSome(r, g, n, 61) }
+	}
 	r.Parallel(names, func(g string) { bodies[g](g) })
 	r.Finish()
 }
@@ -496,7 +506,10 @@ func vpath(i int, l []vortex.Hash) []vortex.Hash {
 	return append(vpath(i-h, l[h:]), vroot(l[:h]))
 }
 
-func vortexAll(r *vlib.Run, g string, n int) {
+func vortexAll(r *vlib.Run, g string, n int) { vortexSome(r, g, n, 1) }
+
+// vortexSome: the root of every tree, and the openings of every stride-th position (plus the first and last three)
+func vortexSome(r *vlib.Run, g string, n int, stride int) {
 	leaves := make([]vortex.Hash, n)
 	for k := range leaves {
 		leaves[k] = vleaf(k)
@@ -523,6 +536,9 @@ func vortexAll(r *vlib.Run, g string, n int) {
 		return
 	}
 	for i := 0; i < size; i++ {
+		if stride > 1 && !(i < 3 || i >= size-3 || i%stride == 0) {
+			continue
+		}
 		id := fmt.Sprintf("n=%d,i=%d", n, i)
 		proof, err := mt.Open(i)
 		r.AddTransitions(1)
